@@ -205,12 +205,21 @@ def validate_trace(module, cfg, trace_path, shards=None, timeout=1800, extra_env
         env = {"TRACE": p}
         if extra_env:
             env.update(extra_env)
-        r = tlc(module, cfg, workers=1, env=env, timeout=timeout, xmx="3g", deque=True)
+        r = tlc(module, cfg, workers=1, env=env, timeout=timeout, xmx="3g", deque=True, tolerate_eval_error=True)
         return p, cnt, r
 
     with cf.ThreadPoolExecutor(max_workers=len(parts)) as ex:
         for p, cnt, r in ex.map(one, parts):
             out = r["out"]
+            if "eval_error" in r:
+                # the trace specification could not evaluate a logged event (values no behaviour of the specification
+                # can show, e.g. a referent the driver never registered): a finding about that shard, not a tool
+                # failure; the mismatches printed before it still count
+                result["violations"].append((p, "judge-error: " + r["eval_error"], out[-3000:]))
+                for m in re.finditer(r'<<"MISMATCH", (\d+)((?:, "[^"]*")+)>>', out):
+                    fields = re.findall(r'"([^"]*)"', m.group(2))
+                    result["mismatches"].append(tuple([p, int(m.group(1))] + fields))
+                continue
             viol = tlc_violation(r)
             if viol:
                 result["violations"].append((p, viol, out[-3000:]))
